@@ -13,6 +13,8 @@ import (
 	"fmt"
 	"os"
 	"runtime"
+	"runtime/pprof"
+	"strings"
 	"sync"
 
 	"verif/harness/lib"
@@ -34,6 +36,12 @@ type env struct {
 
 func main() {
 	f := lib.ParseFlags()
+	if pf := os.Getenv("C16_CPUPROFILE"); pf != "" {
+		if fh, err := os.Create(pf); err == nil {
+			_ = pprof.StartCPUProfile(fh)
+			defer pprof.StopCPUProfile()
+		}
+	}
 	res := lib.NewResult("a case = one full observation (every Reader query + historical state reads on every block " +
 		"0..head+1, node vs unpruned twin vs model) of one node state reached by a scenario; key = scenario/backend/" +
 		"head/allowed floor/situation/step; non-trivial = the property allows a floor > 0 in that state (something may be pruned)")
@@ -91,11 +99,23 @@ func main() {
 			}
 		}()
 	}
+	// the lead scenarios go first, one after the other, so that a finding is reported with their (small)
+	// replay whenever they show it
+	var rest []job
 	for _, j := range jobs {
+		if strings.HasPrefix(j.name, "lead-") {
+			ch <- j
+		} else {
+			rest = append(rest, j)
+		}
+	}
+	barrier(ch, workers)
+	for _, j := range rest {
 		ch <- j
 	}
 	close(ch)
 	wg.Wait()
+	pprof.StopCPUProfile()
 	lib.Finish(f, res)
 }
 
@@ -129,6 +149,16 @@ func replayJobs(f lib.Flags, res *lib.Result) []job {
 		res.Note("replay: no scenario named %q (seed-dependent scenarios need the same --seed)", name)
 	}
 	return out
+}
+
+// barrier returns once every worker is idle: each takes one job that waits for all the others.
+func barrier(ch chan job, workers int) {
+	var wg sync.WaitGroup
+	wg.Add(workers)
+	for i := 0; i < workers; i++ {
+		ch <- job{name: "barrier", run: func(*env) { wg.Done(); wg.Wait() }}
+	}
+	wg.Wait()
 }
 
 func jobName(format string, a ...any) string { return fmt.Sprintf(format, a...) }
